@@ -134,30 +134,27 @@ Definition check_factor (c : string * string * dy) : Z :=
   end.
 
 (* ---- correspondence check 2: the identities on the implementation's doubles.
-   `tab` = all factors of one dimension: (a, b, Unit(a,b)).  One verdict per ordered pair (a,b):
-   0 = a2b*b2a = 1 and a2b*b2c = a2c for every c (relative 2^-50, exact rational arithmetic);
-   1 = reciprocity fails; 2 = transitivity fails for some c; 3 = table incomplete *)
-Fixpoint lookup2 (tab : list (string * string * dy)) (a b : string) : option Q :=
-  match tab with
-  | [] => None
-  | (a', b', d) :: r => if String.eqb a a' && String.eqb b b' then dy_toQ d else lookup2 r a b
-  end.
+   `m` = all factors of one dimension as a matrix: row a, column b = Unit(a, b).  One verdict per ordered
+   pair (a, b), row-major: 0 = a2b*b2a = 1 and a2b*b2c = a2c for every c (relative 2^-50, exact rational
+   arithmetic); 1 = reciprocity fails; 2 = transitivity fails for some c; 3 = matrix not square / not finite *)
+Definition mget (m : list (list dy)) (a b : nat) : option Q := dy_toQ (nth b (nth a m []) DNaN).
 
-Definition check_pair (tab : list (string * string * dy)) (names : list string) (a b : string) : Z :=
-  match lookup2 tab a b, lookup2 tab b a with
+Definition check_pair (m : list (list dy)) (n : nat) (a b : nat) : Z :=
+  match mget m a b, mget m b a with
   | Some ab, Some ba =>
       if negb (rel_close rel_ident (ab * ba) 1) then 1 else
       let bad := existsb (fun c =>
-         match lookup2 tab b c, lookup2 tab a c with
+         match mget m b c, mget m a c with
          | Some bc, Some ac => negb (rel_close rel_ident (ab * bc) ac)
          | _, _ => true
-         end) names in
+         end) (seq 0 n) in
       if bad then 2 else 0
   | _, _ => 3
   end.
 
-Definition check_identities (tab : list (string * string * dy)) (names : list string) : list Z :=
-  flat_map (fun a => map (fun b => check_pair tab names a b) names) names.
+Definition check_identities (m : list (list dy)) : list Z :=
+  let n := List.length m in
+  flat_map (fun a => map (fun b => check_pair m n a b) (seq 0 n)) (seq 0 n).
 
 (* ---- unit.txt: definitions regenerated from the source into Gen/C20_UnitTxt.v as
    (name, coefficient, [(referenced unit, exponent)]); a definition is consistent with the table
@@ -176,9 +173,13 @@ Fixpoint resolve (refs : list (string * Z)) (acc : Q * Z) : option (Q * Z) :=
       end
   end.
 
+(* names that the table above does not model are not constrained *)
 Definition txt_def_ok (d : txt_def) : bool :=
   let '(n, c, refs) := d in
-  match find_unit units n, resolve refs (c, 0) with
-  | Some u, Some (q, k) => Qeq_bool q (uq u) && (k =? uk u)
-  | _, _ => false
+  match find_unit units n with
+  | Some u => match resolve refs (c, 0) with
+              | Some (q, k) => Qeq_bool q (uq u) && (k =? uk u)
+              | None => false
+              end
+  | None => true
   end.
